@@ -101,8 +101,10 @@ def main(tier, seed, replay):
     tr = k.validate_profile("core2", 1500 if thorough else 100, extra_monitors=atom, extra_fields=("enabled",))
     k.validate_profile("rates", 1000 if thorough else 80, extra_monitors=atom)
     k.validate_profile("split", 1500 if thorough else 100, extra_monitors=atom, extra_fields=("enabled",))
+    # relation graphs in the core spec: the mutated entities of one graph must share a message (PartOK)
+    k.validate_profile("rel_split", 1500 if thorough else 100, extra_monitors=atom, extra_fields=("enabled",))
     k.selftest(tr)
     return k.finish(assumptions=[
         "chunk sizes, header sizes and message lengths are read from the wire by the harness's decoder; the relation groups are computed by the driver from the relations it created (connected components of the relations whose source is replicated)",
-        "related groups are exercised through ChildOf with sync_related_entities; hierarchy despawns are not part of the packing driver",
+        "related groups are exercised through ChildOf with sync_related_entities, by the packing driver and (with hierarchy despawns and partial delivery) by the rel_split profile of the core spec",
         "the size promises are checked for messages of the Mutations channel of one client with per-client max_size between 40 and 240 bytes"])
